@@ -92,7 +92,7 @@ class Facet(object):
     """
     def __init__(self, name, check, cases=None, strategy=None, budget=None,
                  nontrivial=None, classify=None, exhaustive=False, distinct=False,
-                 shards=None, rule="", suppress_too_slow=False, max_fail_per_sig=1):
+                 shards=None, rule="", suppress_too_slow=False, max_fail_per_sig=1, fuzz=None):
         self.name = name
         self.check = check
         self.cases = cases
@@ -106,6 +106,7 @@ class Facet(object):
         self.rule = rule
         self.suppress_too_slow = suppress_too_slow
         self.max_fail_per_sig = max_fail_per_sig
+        self.fuzz = fuzz or {}                # {tier: libFuzzer runs} - extra coverage-guided session (atheris), Hypothesis facets only
         assert (cases is None) != (strategy is None)
 
     def is_exhaustive(self, tier):
